@@ -82,3 +82,32 @@ theorem C08_rows_disjoint (it : Rows) (k n : Nat) (h : it.WF k n) :
   exact ⟨Rows.abs_pairwise_disjoint it k, Rows.abs_inside h⟩
 
 end Toodee
+
+namespace Toodee
+
+/-- `RowsMut::next_back` as written in the Rust computes the same result as the shared transcription `Rows.nextBack`
+    (so every C08 theorem about `nextBack` is a theorem about the mutable cursor's own text). -/
+theorem C08_next_back_mut_eq (m : Mode) (it : Rows) : it.nextBackMut m = it.nextBack m := by
+  unfold Rows.nextBackMut Rows.nextBack
+  by_cases h0 : it.v.len = 0
+  · simp [h0]
+  · simp only [h0, if_false]
+    cases hm : usub m it.v.len it.cols with
+    | error e => simp
+    | ok mid =>
+      simp only [ok_bind]
+      cases hs : it.v.splitAt mid with
+      | error e => simp
+      | ok fs =>
+        obtain ⟨fst, snd⟩ := fs
+        simp only [ok_bind]
+        have hfl : fst.len = mid := by
+          unfold Win.splitAt at hs
+          split at hs
+          · simp only [pure_eq] at hs; injection hs with hs; injection hs with h1 h2; rw [← h1]
+          · simp at hs
+        by_cases hf : fst.len = 0
+        · simp [hf]
+        · simp [hf, hfl]
+
+end Toodee
